@@ -597,7 +597,7 @@ func advC07(r *vlib.Run, c *advCase, res *advResult) {
 			}
 			// The delay is drawn from [0,500ms); the injected State-read latency
 			// passes between the end of the delay and write_begin.
-			if vTiming && d >= maxRADelay+c.FwdLat {
+			if vTiming && d >= vMaxRADelay+c.FwdLat {
 				continue
 			}
 			rs.matched, found = true, true
@@ -620,13 +620,13 @@ func advC07(r *vlib.Run, c *advCase, res *advResult) {
 			if rs.matched {
 				continue
 			}
-			if rs.t+maxRADelay+c.FwdLat > f.end(rs.gen) {
+			if rs.t+vMaxRADelay+c.FwdLat > f.end(rs.gen) {
 				r.Count("rs_unanswered_because_stopped", 1)
 				continue // stopped or re-initialised before it was due
 			}
 			if !vTiming {
 				// Without exact timing only a clearly missed answer counts.
-				if rs.t+maxRADelay+time.Second > f.end(rs.gen) {
+				if rs.t+vMaxRADelay+time.Second > f.end(rs.gen) {
 					continue
 				}
 			}
@@ -806,7 +806,7 @@ func advClass(c *advCase, ev []vfake.Event) string {
 				if e.T == ct {
 					sameInstantRS = true
 				}
-				if ct-e.T < maxRADelay && e.Src != "::" {
+				if ct-e.T < vMaxRADelay && e.Src != "::" {
 					pendingRS = true
 				}
 			}
